@@ -27,6 +27,8 @@ FORBIDDEN = {9, 19, 4, 8, 11}
 OKSIGS = [10, 12, 34, 35, 36]
 BADSIGS = [9, 19, 0, 100, -1, 65, 4]
 QUEUE_KINDS = (0, 1, 2)
+REUSE_SIGS = [10, 12, 34, 35, 36]   # op 6 of the probe delivers each of these REUSE_N times
+REUSE_N = 3
 
 
 def predicted_outcome(sig):
@@ -115,12 +117,13 @@ def model_line(chans, caps, ops):
     v = [len(chans)]
     for c, (cap, npre, prelen) in zip(chans, caps):
         kind, blocking = c[0], c[1]
-        v += [model_kind(kind), 1 - blocking, 1, 0, 1 if kind == 4 else 0, cap, npre] + [prelen] * npre
+        v += [model_kind(kind), 0 if kind == 6 else 1 - blocking, 1, 0, 1 if kind == 4 else 0, cap, npre] + [prelen] * npre
     for o in ops:
         if o[0] == 1:
             v += [1, o[1], o[2], o[3], predicted_outcome(o[2])]
         elif o[0] == 6:
-            continue
+            for sg in REUSE_SIGS:
+                v += [5, sg, REUSE_N]
         else:
             v += list(o)
     return 'run_c13 ' + ' '.join(str(x) for x in v)
@@ -131,6 +134,7 @@ def parse_model(out, ops, nchan):
     recs, p = [], 0
     for o in ops:
         if o[0] == 6:
+            p += 6 * len(REUSE_SIGS)
             continue
         n = {1: 6, 5: 6, 3: 4, 4: 3}[o[0]]
         recs.append(v[p:p + n])
@@ -166,8 +170,11 @@ def monitor(ctx, hid, chans, ops, recs, tr, end, reuse, bound_ms):
     case = {'history': probe_line(hid, chans, ops), 'replay': './check C13 --replay <this file>'}
 
     def viol(key, what):
-        k = dict(key)
-        ctx.violation(k, what, dict(case, key=k))
+        # one report per key: the shortest history that shows it
+        k = json.dumps(dict(key), sort_keys=True)
+        pend = ctx.__dict__.setdefault('c13_pending', {})
+        if k not in pend or len(case['history']) < len(pend[k][1]['history']):
+            pend[k] = (what, dict(case, key=dict(key)))
 
     if end != 'exit:0':
         viol({'monitor': 'blocked-or-died', 'end': end, 'kinds': [c[0] for c in chans]},
@@ -182,16 +189,19 @@ def monitor(ctx, hid, chans, ops, recs, tr, end, reuse, bound_ms):
     i = 0
     for o in ops:
         if o[0] == 6:
+            for sg in REUSE_SIGS:
+                for (s_, ch, a) in regs:
+                    if a and s_ == sg and ch < nchan:
+                        att[ch] += REUSE_N
+                        total_att[ch] += REUSE_N
             continue
         r = recs[i]
         i += 1
         if o[0] == 1:
             _, g, sig, ch = o
             outcome, is_open, nb = r[1], r[2], r[3]
-            exp = predicted_outcome(sig)
             kind = chans[ch][0] if ch < nchan else 6
-            if kind == 6 and exp == 0:
-                exp = 1
+            exp = predicted_outcome_for(o, chans)
             if outcome != exp:
                 viol({'monitor': 'register-outcome', 'sig': sig, 'kind': kind}, 'register(sig=%d) on kind %d ended %d, expected %d' % (sig, kind, outcome, exp))
             if outcome == 0 and not is_open:
@@ -247,7 +257,11 @@ def check_read(viol, chans, ch, att, xread, bread, u, b, x, emptied):
         viol({'monitor': 'more-bytes-than-deliveries', 'kind': kind}, 'reader saw %d wake bytes for %d deliveries since the last complete drain' % (xread[ch], att[ch]))
     if emptied:
         if att[ch] >= 1 and bread[ch] < 1:
-            if kind == 2:
+            if kind == 2 and chans[ch][2] in (3, 4):
+                # the test itself queued empty datagrams before registering: no implementation could add a
+                # byte to that queue; covered by the `only_empty_datagrams` disjunct of the partial theorem
+                pass
+            elif kind == 2:
                 viol({'kind': 'dgram', 'corner': 'queue-holds-only-empty-probe-datagrams'},
                      'datagram socket: %d deliveries since the last complete drain, the reader drained the socket and saw 0 bytes '
                      '(only the empty datagrams that register_raw sends as its probe; the wake byte was refused with EAGAIN)' % att[ch])
@@ -343,18 +357,19 @@ def run_histories(ctx, hs, have_model, bound_ms=2000):
                 if tr[ch][:4] != mtr[ch][1:5]:
                     bad.append({'history': lines[i], 'trailer_channel': ch, 'impl(units bytes xbytes nonblock)': tr[ch][:4], 'model': mtr[ch][1:5]})
                     break
+    for k, (what, case) in sorted(ctx.__dict__.get('c13_pending', {}).items()):
+        ctx.violation(json.loads(k), what, case)
+    ctx.__dict__['c13_pending'] = {}
     if have_model:
-        ctx.correspondence('extracted model run_c13 = signal_hook::low_level::pipe on %d histories (outcomes, O_NONBLOCK, descriptor validity, units/bytes/wake bytes read back)' % len(hs), not bad, bad[:5])
+        ctx.correspondence('extracted model run_c13 = signal_hook::low_level::pipe on %d histories (outcomes, O_NONBLOCK, descriptor validity, units/bytes/wake bytes read back)' % len(hs), not bad, bad[:3])
         ctx.correspondence('extracted model never takes the BLOCKS branch on these histories', not model_blocked, model_blocked[:3])
     return parsed
 
 
 def predicted_outcome_for(o, chans):
-    exp = predicted_outcome(o[2])
+    """an invalid descriptor fails in set_flags (error) before the registry sees the signal"""
     kind = chans[o[3]][0] if o[3] < len(chans) else 6
-    if kind == 6 and exp == 0:
-        exp = 1
-    return exp
+    return 1 if kind == 6 else predicted_outcome(o[2])
 
 
 def histories(ctx):
@@ -368,7 +383,7 @@ def histories(ctx):
                 buf = 4096 if kind == 0 else (1 if blocking else 0)
                 n = 5000 if not thorough else 60000
                 hs.append(([(kind, blocking, mode, 0, buf)], [(1, blocking, 10, 0), (5, 10, n), (3, 0, 0), (5, 10, 2), (4, 0), (5, 10, 1), (6,)]))
-    for _ in range(60 if not thorough else 600):
+    for _ in range(150 if not thorough else 1500):
         hs.append(gen_history(rnd, thorough))
     return hs
 
@@ -394,7 +409,7 @@ def run(ctx, only=None):
                             'longer than the capacity + %d random histories from VERIF_SEED (1-3 channels of 7 descriptor kinds, register/register_raw incl. forbidden, invalid '
                             'signals and invalid descriptors, bursts up to %d deliveries, partial and complete drains, stale unregisters, descriptor-number reuse probe); '
                             'each runs on the real crate in a forked child and on the extracted model with the measured capacities; distinct_nontrivial = distinct '
-                            '(channel configuration) and (kind, outcome, method, probe result) combinations seen' % ((60, 1000) if ctx.tier == 'quick' else (600, 60000)))
+                            '(channel configuration) and (kind, outcome, method, probe result) combinations seen' % ((150, 1000) if ctx.tier == 'quick' else (1500, 20000)))
     ctx.coverage['exhaustive'] = False
     ctx.coverage['refuted'] = 'C13_one_nonblocking_byte_refuted: the text "sees at least one byte" fails for a datagram socket whose queue is full of the empty probe datagrams (model witness dgram_corner_witness; reproduced on the implementation by fixed history 2)'
     ctx.distinct = set(json.dumps(d) for d in ctx.distinct)
